@@ -239,6 +239,43 @@ def _alarm(*a):
     raise Hang()
 
 
+def isolated(fn, timeout, extra_mem=3 << 30):
+    """Run fn() in a forked child (the state it works on is on disk).  Returns "ok:", "exc:<ExceptionName>" or
+    "die:<why>" when the child had to be killed after `timeout` seconds or died (memory limit, abort)."""
+    import resource
+    import select
+    r, w = os.pipe()
+    pid = os.fork()
+    if pid == 0:
+        msg = b"die:unknown"
+        try:
+            os.close(r)
+            with open("/proc/self/statm") as f:
+                now = int(f.read().split()[0]) * os.sysconf("SC_PAGE_SIZE")
+            resource.setrlimit(resource.RLIMIT_AS, (now + extra_mem, now + extra_mem))
+            try:
+                fn()
+                msg = b"ok:"
+            except MemoryError:
+                msg = b"die:MemoryError"
+            except BaseException as e:
+                msg = ("exc:" + type(e).__name__).encode()
+            os.write(w, msg)
+        finally:
+            os._exit(0)
+    os.close(w)
+    try:
+        ready = select.select([r], [], [], timeout)[0]
+        data = os.read(r, 200).decode() if ready else ""
+        if not ready:
+            os.kill(pid, signal.SIGKILL)
+            data = "die:Timeout"
+        os.waitpid(pid, 0)
+        return data or "die:Crashed"
+    finally:
+        os.close(r)
+
+
 def canon(c):
     """Content projection -> one canonical string per component (TLC compares them)."""
     s = lambda v: json.dumps(v, sort_keys=True, ensure_ascii=True)
@@ -252,9 +289,6 @@ def replay_paths(sub, chunk):
     import logging
     ui.ui_factory = ui.SilentUIFactory()
     logging.getLogger("brz").setLevel(logging.CRITICAL)       # converters and config chatter on stderr
-    # a conversion that never ends may also never stop allocating: fail in this worker, not under the kernel's OOM killer
-    import resource
-    resource.setrlimit(resource.RLIMIT_AS, (6 << 30, 6 << 30))
     for k, (path, states) in enumerate(chunk):
         base = os.path.join(sub.workdir, "site%d" % k)
         os.mkdir(base)
@@ -287,23 +321,29 @@ def replay_one(sub, base, path, states):
         name, arg = m.group(1), (m.group(2) or "").strip('"')
         if name not in ("Reconfigure", "Upgrade", "UpgradeShared"):
             sub.machinery("unknown action " + act)
-        # a call the model says never returns gets 15 s, any other 120 s (then it is reported as diverging)
-        signal.signal(signal.SIGALRM, _alarm)
+        # upgrades run in a child process: a call the model says never returns gets 8 s, any other 120 s, and a conversion
+        # loop that never ends also never stops allocating (the child has an address-space limit).  Reconfigurations have
+        # no such loop; they run in this process under an alarm (forking is expensive here).
         unspecified = name != "Reconfigure" and not l0["pure"]
-        signal.alarm(15 if st1["last"] == "diverges" else (60 if unspecified else 120))
-        try:
-            if name == "Reconfigure":
+        budget = 8 if st1["last"] == "diverges" else (60 if unspecified else 120)
+        if name == "Reconfigure":
+            signal.signal(signal.SIGALRM, _alarm)
+            signal.alarm(budget)
+            try:
                 site.reconfigure(arg)
-            elif name == "Upgrade":
-                site.upgrade(arg)
-            else:
-                site.upgrade(arg, "shared")
-            rout, exc = "ok", ""
-        except Exception as e:
-            exc = type(e).__name__
-            rout = "already" if exc in ALREADY else ("diverges" if isinstance(e, (Hang, MemoryError)) else "refused")
-        finally:
-            signal.alarm(0)
+                res = "ok:"
+            except Hang:
+                res = "die:Timeout"
+            except Exception as e:
+                res = "exc:" + type(e).__name__
+            finally:
+                signal.alarm(0)
+        elif name == "Upgrade":
+            res = isolated(lambda: site.upgrade(arg), budget)
+        else:
+            res = isolated(lambda: site.upgrade(arg, "shared"), budget)
+        exc = res[4:]
+        rout = "ok" if res == "ok:" else ("diverges" if res.startswith("die:") else ("already" if exc in ALREADY else "refused"))
         log.append([name, arg, rout, exc])
         try:
             r1 = site.layout()
@@ -317,7 +357,7 @@ def replay_one(sub, base, path, states):
             sub.count(1)
             return
         rows.append({"l0": l0, "l1": st1["lay"], "out": st1["last"], "act": name, "arg": arg, "r1": r1, "rout": rout, "c0": canon(c0), "c1": canon(c1),
-                     "model_drops": states[path[i - 1][1]]["content"]["refs"] != st1["content"]["refs"],
+                     "model_drops": st1["drops"],
                      "meta": {"initial_layout": lay0, "log": [list(x) for x in log], "exc": exc,
                               "before": {k: c0[k] for k in ("tip", "revno", "tags", "refs", "wt_parents", "changes", "wt") if k in c0},
                               "after": {k: c1[k] for k in ("tip", "revno", "tags", "refs", "wt_parents", "changes", "wt") if k in c1}}})
@@ -358,6 +398,7 @@ def run(ctx):
     edges, inits = sorted((ren[a], act, ren[b]) for a, act, b in edges), sorted(ren[i] for i in inits)
     paths = [p for p in tlc.transition_cover(nodes, edges, inits, rng=ctx.rng) if len(p) > 1]
     ctx.cov["graph"] = {"nodes": len(nodes), "edges": len(edges), "initial_layouts": len(inits), "cover_paths": len(paths)}
+    ncover = len(paths)
     parsed = {}
 
     def st(nid):
@@ -366,10 +407,10 @@ def run(ctx):
         return parsed[nid]
     # prefer sequences in which more steps actually change something
     def weight(p):
-        return -sum(1 for _, nid in p[1:] if st(nid)["last"] == "ok")
+        return -sum(1 for _, nid in p[1:] if '/\\ last = "ok"' in nodes[nid])
     ctx.rng.shuffle(paths)
     paths.sort(key=weight)
-    want = (210 if ctx.quick else 2500) if ctx.tier != "tiny" else 10
+    want = (210 if ctx.quick else 1200) if ctx.tier != "tiny" else 10
     # round-robin over the kinds of first step so that every transition kind is replayed: reconfigurations by source
     # layout (with / without pending changes), upgrades by (from, to) format and which components sit at the location
     def own(l):
@@ -398,12 +439,17 @@ def run(ctx):
             if groups[k] and len(picked) < want:
                 picked.append(groups[k].pop(0))
     jobs = [(p, {nid: st(nid) for _, nid in p}) for p in picked]
+    ninit = len(inits)
+    # the workers fork a child per operation: do not let them inherit the whole graph
+    del nodes, edges, paths, groups, parsed, picked, ren
+    import gc
+    gc.collect()
     ctx.rule("sequences = paths of a transition cover of TLC's state graph of Layouts.tla (%d initial layouts: tree yes/no x branch "
              "local / bound / reference x repository own / shared / none x inside a shared repository (empty / holding the tip) or "
              "not x 4 formats x clean / pending changes + pending merge x master same / ahead / behind / diverged; <= %d actions of Reconfigure(6 targets), Upgrade(4 formats), UpgradeShared(4 formats)); "
              "%d cover paths, replayed: %d (round-robin over the kinds of first step: reconfigurations by source layout and "
              "pending changes, master relation for (lightweight-)checkout, upgrades by formats and components; sequences with more effective steps first); non-trivial = sequence whose steps change the layout; distinct = (initial layout, actions)"
-             % (len(inits), steps, len(paths), len(picked)))
+             % (ninit, steps, ncover, len(jobs)))
     core.fork_map(ctx, replay_paths, jobs)
     rows = ctx.collected
     if not rows:
